@@ -9,6 +9,12 @@ def jobs(tier):
     for op in range(5):
         out.append(dict(name='scalar_op%d' % op, src='h_fieldops.cpp', defs={'OP1': op}, entry='h_scalar_ops', tus=TUS, fp='real', loopmax=4000, maxsteps=100000000, timeout=290, bounds='first operation %d on every sub-box, second operation symbolic on the whole grid' % op))
     out.append(dict(name='deck_ops', src='h_fieldops.cpp', defs={}, entry='h_deck_ops', tus=TUS, fp='real', loopmax=4000, maxsteps=100000000, bounds='assign_deck on every sub-box, deck entries deck/default/empty (symbolic)'))
+    if tier != 'quick':
+        big = {'GNX': 3, 'GNY': 2, 'GNZ': 2}
+        out.append(dict(name='box_3x2x2', src='h_fieldops.cpp', defs=dict(big), entry='h_box', tus=TUS, fp='real', loopmax=8000, maxsteps=80000000, timeout=1500, bounds='every sub-box of a 3x2x2 grid'))
+        for op in (0, 1):
+            out.append(dict(name='scalar_op%d_3x2x2' % op, src='h_fieldops.cpp', defs=dict(big, OP1=op), entry='h_scalar_ops', tus=TUS, fp='real', loopmax=8000, maxsteps=200000000, timeout=1500, bounds='first operation %d, 3x2x2 grid' % op))
+        out.append(dict(name='deck_ops_3x2x2', src='h_fieldops.cpp', defs=dict(big), entry='h_deck_ops', tus=TUS, fp='real', loopmax=8000, maxsteps=200000000, timeout=1500, bounds='assign_deck, 3x2x2 grid'))
     DT = TUS + ['opm/input/eclipse/Deck/DeckRecord.cpp', 'opm/input/eclipse/Deck/DeckItem.cpp', 'opm/input/eclipse/Deck/UDAValue.cpp', 'opm/input/eclipse/Units/Dimension.cpp']
     out.append(dict(name='box_update', src='h_operate.cpp', defs={}, entry='h_box_update', tus=DT, fp='real', loopmax=4000, maxsteps=40000000, opts=['--ctors'], bounds='2x3x4 grid, every given/defaulted pattern of the six corners, corners at the axis ends or one cell inside'))
     out.append(dict(name='operate_functions', src='h_operate.cpp', defs={}, entry='h_operate', tus=['opm/input/eclipse/EclipseState/Grid/Operate.cpp'], fp='real', loopmax=4000, maxsteps=40000000, opts=['--ctors'], bounds='the 14 OPERATE functions, all real R, X, alpha, beta (pow/log uninterpreted)'))
